@@ -6,11 +6,13 @@
    endpoint is a live node within its declared port count; children lists partition the live non-root
    nodes) and [Rep h g] says that h and g hold the same node map, the same multiset of links, the same root.
 
-   WHICH free index a new node receives is not part of the property (only: live nodes keep their index, a deleted
+   WHICH index a new node receives is not part of the property (only: live nodes keep their index, a deleted
    node is unreachable).  The model therefore takes that choice as an oracle ([prefer], [bstep_at], [step] of
-   model/Graph.v: the oracle is the value the implementation returned, and it is followed when it names a free
-   index); every statement below that involves an allocation is quantified over ALL oracles [pick], so it holds
-   for LIFO reuse (hugr-py as written, = no oracle), smallest-first, FIFO or any other admissible policy. *)
+   model/Graph.v: the oracle is the value the implementation returned, and it is followed when it names an index
+   that is not live -- a freed one, the next fresh one, or one further beyond the end of the node table, the
+   slots in between becoming free slots); every statement below that involves an allocation is quantified over
+   ALL oracles [pick], so it holds for LIFO reuse (hugr-py as written, = no oracle), smallest-first, FIFO, no reuse
+   at all, an insertion that numbers its copies in pre-order instead of index order, or any other admissible policy. *)
 From Coq Require Import List Bool Arith ZArith Permutation.
 Import ListNotations.
 From HV Require Import lib.PyDict lib.Harness model.BiMapM model.Graph spec.GraphS proofs.GraphP proofs.GraphInvP
@@ -44,14 +46,18 @@ Section C04.
     | Next g' => r = Ok /\ Inv h' /\ Rep h' g'
     end.
   Proof. exact bstep_refines. Qed.
-  (* the oracle only reorders the free indices: invariant, representation and every query are insensitive to it,
-     and an admissible choice (a free index) is the index the next add_node returns *)
+  (* the oracle only reorders the free indices or grows the table by free slots: invariant, representation and
+     every query are insensitive to it, and an admissible choice (a freed index, or one at or beyond the end of the
+     table; under the invariant: ANY index that is not live) is the index the next add_node returns *)
   Theorem C04_choice_keeps_invariant_and_state : forall pick (h : hugr) g, Inv h -> Rep h g ->
     Inv (prefer pick h) /\ Rep (prefer pick h) g /\ forall n, get_node (prefer pick h) n = get_node h n.
   Proof. intros pick h g HI HR. split; [exact (Inv_prefer pick h HI)|]. split; [exact (Rep_prefer pick h g HR)|]. exact (prefer_get pick h). Qed.
-  Theorem C04_admissible_choice_is_taken : forall (h : hugr) f o p k m, In f (free h) ->
+  Theorem C04_admissible_choice_is_taken : forall (h : hugr) f o p k m, In f (free h) \/ length (nodes h) <= f ->
     snd (fst (add_node_raw (prefer (Some f) h) o p k m)) = f.
   Proof. exact add_node_takes_the_choice. Qed.
+  Theorem C04_any_dead_index_is_admissible : forall (h : hugr) f o p k m, Inv h -> get_node h f = None ->
+    snd (fst (add_node_raw (prefer (Some f) h) o p k m)) = f.
+  Proof. intros h f o p k m (_ & HF & _). exact (add_node_takes_any_dead_index h f o p k m HF). Qed.
 
   (* store_inv_reachable, in full: after every finite history of add_node / add_const / add_link / add_order_link /
      delete_link / delete_node / insert_hugr calls inside the guard ([guarded]: live node arguments, offsets >= -1,
@@ -224,6 +230,28 @@ Proof.
   - vm_compute. reflexivity.
   - eexists. split; [vm_compute; reflexivity|]. split; vm_compute; reflexivity.
 Qed.
+(* the same when the inserted HUGR root{a{c}, b} (built as a, b, c) is copied in PRE-ORDER (a, c, b take the fresh indices
+   in that order: the mapping is {0:4, 1:5, 3:6, 2:7} where index order gives {0:4, 1:5, 2:6, 3:7}) into a target that
+   did not reuse its freed index 1 either: the model follows both choices, the specification accepts *)
+Definition ex_preorder : list (cmd nat nat * ret) :=
+  [(Basic (AddNode 1 None None 0), RNode 1); (Basic (AddNode 1 None None 0), RNode 2); (Basic (DelNode 1), RUnit);
+   (Basic (AddNode 1 None None 0), RNode 3);
+   (Insert 5 0 0 (trace_at (init 5 0) (no_choice [AddNode 1 None None 0; AddNode 2 None None 0; AddNode 3 (Some 1) None 0]))
+           (Some 2), RMap [(0, 4); (1, 5); (3, 6); (2, 7)]);
+   (Basic (AddLink (6, 0%Z) (7, 0%Z)), RUnit); (Basic (AddNode 1 (Some 7) None 0), RNode 1)].
+Example C04_premises_satisfiable_with_fresh_indices_in_another_order :
+  Forall annot_ok (map fst ex_preorder) /\
+  map snd (ctrace (init 0 0) ex_preorder) =
+    [RNode 1; RNode 2; RUnit; RNode 3; RMap [(0, 4); (1, 5); (2, 7); (3, 6)]; RUnit; RNode 1] /\
+  exists g', s_run (s_init 0 0 0) (ctrace (init 0 0) ex_preorder) = Next g' /\ length (a_links g') = 1 /\ length (a_nodes g') = 8 /\
+    option_map (@a_children nat nat) (dget Nat.eqb (a_nodes g') 4) = Some [5; 7] /\
+    option_map (@a_children nat nat) (dget Nat.eqb (a_nodes g') 5) = Some [6].
+Proof.
+  split; [|split].
+  - repeat constructor.
+  - vm_compute. reflexivity.
+  - eexists. split; [vm_compute; reflexivity|]. repeat split; vm_compute; reflexivity.
+Qed.
 
 Print Assumptions C04_init.
 Print Assumptions C04_store_inv_reachable.
@@ -232,6 +260,7 @@ Print Assumptions C04_step_refines.
 Print Assumptions C04_step_refines_lifo.
 Print Assumptions C04_choice_keeps_invariant_and_state.
 Print Assumptions C04_admissible_choice_is_taken.
+Print Assumptions C04_any_dead_index_is_admissible.
 Print Assumptions C04_store_refines_spec.
 Print Assumptions C04_spec_never_rejects.
 Print Assumptions C04_step_refines_with_insert.
@@ -251,3 +280,4 @@ Print Assumptions C04_delete_link_removes_exactly_one.
 Print Assumptions C04_port_count_lower_bounds.
 Print Assumptions C04_port_count_at_creation.
 Print Assumptions C04_delete_sub_link_total.
+Print Assumptions C04_premises_satisfiable_with_fresh_indices_in_another_order.
